@@ -31,6 +31,7 @@ ELEM_TYPES = [
     {"k": "leaf", "o": "int"}, {"k": "leaf", "o": "int"}, {"k": "con", "o": "int", "c": {"gt": 0}}, {"k": "con", "o": "str", "c": {"max_length": 2}},
     {"k": "leaf", "o": "float"}, {"k": "leaf", "o": "date"}, {"k": "leaf", "o": "bool"}, {"k": "enum", "e": "Num"},
     {"k": "con", "o": "str", "c": {"regex": r"\d+"}}, {"k": "leaf", "o": "uuid"},
+    {"k": "leaf", "o": "decimal"}, {"k": "leaf", "o": "timedelta"}, {"k": "con", "o": "decimal", "c": {"ge": 0}},
 ]
 KEY_TYPES = [{"k": "leaf", "o": "int"}, {"k": "con", "o": "str", "c": {"max_length": 2}}, {"k": "con", "o": "int", "c": {"gt": 0}},
              {"k": "leaf", "o": "date"}, {"k": "enum", "e": "Num"}]
@@ -40,7 +41,10 @@ ELEMS = st.one_of(
     st.integers(-3, 12), st.integers(-3, 12).map(str), st.sampled_from(["abc", "x", "", "1.5", "2020-01-02", "yes", "12345678-1234-5678-1234-567812345678", "ab", "*"]),
     st.sampled_from([None, True, False, {"t": "float", "v": "1.0"}, {"t": "float", "v": "2.5"}, {"t": "float", "v": "nan"}, {"t": "obj"},
                      {"t": "list", "v": [1]}, {"t": "list", "v": ["x"]}, {"t": "list", "v": [1, 2]}, {"t": "dict", "v": [["a", 1]]}, {"t": "dict", "v": [["a", "x"]]},
-                     {"t": "bytes", "v": "31"}, {"t": "date", "v": "2020-01-02"}]))
+                     {"t": "bytes", "v": "31"}, {"t": "date", "v": "2020-01-02"}]),
+    # offenders whose conversion fails with an arithmetic error rather than TypeError/ValueError (OverflowError, decimal.InvalidOperation)
+    st.sampled_from(["inf", "-inf", "1.2.3", "1e400", {"t": "float", "v": "inf"}, {"t": "float", "v": "-inf"}, {"t": "float", "v": "1e300"},
+                     {"t": "int", "v": "1" + "0" * 400}, {"t": "decimal", "v": "Infinity"}, {"t": "decimal", "v": "sNaN"}]))
 HELEMS = st.one_of(st.integers(-3, 12), st.integers(-3, 12).map(str),
                    st.sampled_from(["abc", "x", "", "1.5", "2020-01-02", "ab", "*", None, True, {"t": "float", "v": "1.0"}, {"t": "float", "v": "2.5"},
                                     {"t": "bytes", "v": "31"}, {"t": "date", "v": "2020-01-02"}]))
@@ -356,6 +360,11 @@ def run_case(case):
     finally:
         dspec.cleanup()
     fails = []
+    if got[0] == "other" and exp[0] == "ok" and off and isinstance(got[1], Exception) and not isinstance(got[1], (RecursionError, MemoryError)):
+        # an offender the policy tolerates made the whole call fail with the converter's own exception (not even a ParseError)
+        return {"status": "other", "offenders": off, "converted": conv,
+                "fails": [(f"raises-{type(got[1]).__name__}-although-the-policy-tolerates-the-offenders/{label}",
+                           {"offenders": off, "policy": case.get("policy") or {}, "expected": codec.encode(exp[1]), "got": f"{type(got[1]).__name__}: {str(got[1])[:160]}"})]}
     if got[0] in ("other", "hang"):
         return {"status": "other", "fails": [], "offenders": off, "converted": conv}
     det = {"offenders": off, "policy": case.get("policy") or {},
@@ -410,7 +419,7 @@ def case_strategy():
         "policy": POLICY, "addition": st.sampled_from([None, None, "int", True]),
     }).flatmap(lambda c: st.fixed_dictionaries({k: st.just(v) for k, v in c.items()} | {
         "input": st.lists(st.one_of(*[st.tuples(st.just(n), st.one_of(gen.conforming(FIELD_T[n]), ELEMS).filter(lambda e: not _one_shot(e))).map(list) for n in c["fields"]],
-                                    st.tuples(st.sampled_from(["extra", "x9"]), st.sampled_from([1, "2", "zz", None, {"t": "list", "v": [1]}])).map(list)),
+                                    st.tuples(st.sampled_from(["extra", "x9"]), st.sampled_from([1, "2", "zz", None, {"t": "list", "v": [1]}, "inf", {"t": "float", "v": "inf"}, {"t": "float", "v": "nan"}])).map(list)),
                           min_size=1, max_size=5, unique_by=lambda p: p[0])}))
     fn = st.fixed_dictionaries({"part": st.just("func"), "elem": et, "policy": POLICY}).flatmap(
         lambda c: st.fixed_dictionaries({k: st.just(v) for k, v in c.items()} | {
